@@ -2230,3 +2230,307 @@ def dump_items(d):
 
 
 CHECKS["C16"] = check_C16
+
+
+# ----------------------------------------------------------------------------- C17
+
+def check_C17(ctx):
+    res = Result()
+    rng = ctx.rng
+    lines, meta = [], []
+    ents = [e for e in ctx.reach if e["mode"] in (SET, POLL)]
+    for ent in ents:
+        for _ in range(ctx.n(6, 60)):
+            lay = gen.layout(rng, ent, maxrep=rng.choice([0, 1, 2, 3]))
+            if lay is None:
+                continue
+            f = gen.frame(ent["cls"], ent["id"], lay.payload)
+            bf = rng.choice([0, 1])
+            lines.append(f"parse 3 1 {bf} {f.hex()}")
+            meta.append((ent, lay, "setpoll"))
+            lines.append(f"parse {ent['mode']} 1 {bf} {f.hex()}")
+            meta.append((ent, lay, "true"))
+    py = do_corr(res, lines)
+    for i in range(0, len(lines), 2):
+        ent, lay, _ = meta[i]
+        a, b = py[i], py[i + 1]
+        nm = f"{defs.MODENAME[ent['mode']]}:{ent['name']}"
+        res.distinct((nm, len(lay.payload)))
+        if not b.startswith("ok "):
+            continue    # not generatable in its own mode (C02/C16 findings)
+        if a != b:
+            res.finding(f"def={nm};class=setpoll-resolves-wrong-mode",
+                        f"SETPOLL parses a {defs.MODENAME[ent['mode']]} message as mode {field(a, 'mode') if a.startswith('ok') else a}", dict(op=lines[i][:300]))
+    # getinputmode itself: exhaustive over class/id × total length (it reads nothing else)
+    il = []
+    step = 1 if ctx.tier == "thorough" else 7
+    ids = [(c, i) for c in range(256) for i in range(256)]
+    for n, (c, i) in enumerate(ids):
+        if ctx.tier != "thorough" and c not in (6, 1, 5, 0x0b, 0x13) and n % step:
+            continue
+        for L in (6, 7, 8, 9, 10, 11, 12, 20):
+            il.append("inputmode " + (b"\xb5\x62" + bytes([c, i]) + bytes(L - 4)).hex())
+    do_corr(res, il)
+    for l in il[:3]:
+        res.distinct(l)
+    samples = [lines[0][:100], il[0]]
+    return res.finish("distinct (SET/POLL definition, payload length) conforming payloads parsed with SETPOLL and with their true mode; getinputmode over class/id × total length", samples)
+
+
+CHECKS["C17"] = check_C17
+
+
+# ----------------------------------------------------------------------------- C18
+
+def types_in_use(ctx):
+    ts = set()
+    def walk(d):
+        for k, v in d.items():
+            if isinstance(v, tuple):
+                if v[0] in gen.BITTYPES:
+                    ts.add(v[0])
+                else:
+                    walk(v[1])
+            elif isinstance(v, list):
+                ts.add(v[0])
+            else:
+                ts.add(v)
+    for e in ctx.cat:
+        walk(e["defn"])
+    for k, (kid, ty) in ubc.UBX_CONFIG_DATABASE.items():
+        ts.add(ty)
+    return sorted(t for t in ts if isinstance(t, str))
+
+
+def fletcher_ref(bs):
+    n = len(bs)
+    return bytes([sum(bs) % 256, sum((n - i) * b for i, b in enumerate(bs)) % 256])
+
+
+def check_C18(ctx):
+    res = Result()
+    rng = ctx.rng
+    lines, meta = [], []
+    types = types_in_use(ctx)
+    valid = [t for t in types if t == "CH" or (len(t) == 4 and t[0] in "ACEILRUX" and t[1:].isdigit())]
+    for t in valid:
+        if t == "CH":
+            for v in ("", "abc", "héllo"):
+                lines.append(f"v2b CH {canon.valstr(v)}"); meta.append(("v2b", t, v))
+            lines.append("nomval CH"); meta.append(("nomval", t, None))
+            continue
+        n = gen.tsize(t)
+        L = t[0]
+        lines.append(f"nomval {t}"); meta.append(("nomval", t, None))
+        lines.append(f"attsiz {t}"); meta.append(("attsiz", t, None))
+        if L in "EILU":
+            lo, hi = type_range(t)
+            if n <= 2 and (ctx.tier == "thorough" or n == 1):
+                vals = range(lo, hi + 1)
+            else:
+                vals = sorted(set([lo, lo + 1, -1, 0, 1, hi - 1, hi] + [rng.randrange(lo, hi + 1) for _ in range(ctx.n(40, 400))]))
+                vals = [v for v in vals if lo <= v <= hi]
+            for v in vals:
+                lines.append(f"v2b {t} i{v}"); meta.append(("v2b", t, v))
+            for v in (lo - 1, hi + 1, lo - 2 ** 70, hi + 2 ** 70):
+                lines.append(f"v2b {t} i{v}"); meta.append(("v2b-out", t, v))
+            for _ in range(ctx.n(20, 200)):
+                b = bytes(rng.getrandbits(8) for _ in range(n))
+                lines.append(f"b2v {t} {canon.hx(b)}"); meta.append(("b2v", t, b))
+        elif L in "XC":
+            for _ in range(ctx.n(8, 60)):
+                b = gen.rand_bytes(rng, n)
+                lines.append(f"v2b {t} y{canon.hx(b)}"); meta.append(("v2b", t, b))
+                lines.append(f"b2v {t} {canon.hx(b)}"); meta.append(("b2v", t, b))
+            for b in (b"", bytes(n + 1), bytes(max(n - 1, 0))):
+                if len(b) != n:
+                    lines.append(f"v2b {t} y{canon.hx(b)}"); meta.append(("v2b-out", t, b))
+        elif L == "R":
+            for _ in range(ctx.n(60, 600)):
+                b = bytes(rng.getrandbits(8) for _ in range(n))
+                lines.append(f"b2v {t} {canon.hx(b)}"); meta.append(("b2v", t, b))
+                x = struct.unpack("<f" if n == 4 else "<d", b)[0]
+                lines.append(f"v2b {t} {canon.f64hex(x)}"); meta.append(("v2b", t, x))
+            for x in (0.0, -0.0, 1.0, 1e38, 3.5e38, 1e39, -1e39, float("inf"), 1e-46, 5e-324, 16777217.0, 0.1):
+                lines.append(f"v2b {t} {canon.f64hex(x)}"); meta.append(("v2b", t, x))
+            for v in (0, 1, -7, 2 ** 53 + 1, 10 ** 400):
+                lines.append(f"v2b {t} i{v}"); meta.append(("v2b", t, v))
+        elif L == "A":
+            for _ in range(ctx.n(4, 30)):
+                lst = [rng.getrandbits(8) for _ in range(n)]
+                lines.append(f"v2b {t} l{','.join(map(str, lst))}"); meta.append(("v2b", t, lst))
+                lines.append(f"b2v {t} {canon.hx(bytes(lst))}"); meta.append(("b2v", t, bytes(lst)))
+            lines.append(f"v2b {t} l{','.join(['0'] * (n - 1))}"); meta.append(("v2b-out", t, [0] * (n - 1)))
+            lines.append(f"v2b {t} l{','.join(['256'] + ['0'] * (n - 1))}"); meta.append(("v2b-out", t, [256] + [0] * (n - 1)))
+        # wrong python types are refused
+        for v in (None, "1", b"\x01", 1.5, [1], True, 7):
+            lines.append(f"v2b {t} {canon.valstr(v)}"); meta.append(("v2b-type", t, v))
+    for t in ("Z002", "Y001", "U00x", "", "Q004"):
+        if t:
+            lines.append(f"v2b {t} i1"); meta.append(("badtype", t, 1))
+            lines.append(f"b2v {t} 01"); meta.append(("badtype", t, 1))
+            lines.append(f"nomval {t}"); meta.append(("badtype", t, 1))
+    # checksums: all byte strings ≤ 2 (3 in thorough) + random longer
+    maxl = ctx.n(2, 3)
+    for L in range(maxl + 1):
+        for tup in (itertools.product(range(256), repeat=L) if L < 3 else itertools.product(range(0, 256, 1), repeat=3)):
+            b = bytes(tup)
+            lines.append(f"cksum {canon.hx(b)}"); meta.append(("cksum", None, b))
+            if L >= 3 and len(lines) > 3_000_000:
+                break
+    for _ in range(ctx.n(2000, 30000)):
+        b = bytes(rng.getrandbits(8) for _ in range(rng.randrange(3, 300)))
+        lines.append(f"cksum {canon.hx(b)}"); meta.append(("cksum", None, b))
+        f = b"\xb5\x62" + b + (uh.calc_checksum(b) if rng.random() < 0.5 else bytes(rng.getrandbits(8) for _ in range(2)))
+        lines.append(f"isvalid {canon.hx(f)}"); meta.append(("isvalid", None, f))
+    # float layer (validates the exact binary64 model against CPython)
+    scales = sorted({v[1] for e in ctx.cat for v in _walk_scaled(e["defn"])}, key=repr)
+    for sc in scales:
+        for _ in range(ctx.n(25, 400)):
+            t = rng.choice(["U001", "I001", "U002", "I002", "U004", "I004"])
+            b = bytes(rng.getrandbits(8) for _ in range(gen.tsize(t)))
+            lines.append(f"scaleup {t} {canon.valstr(sc)} {canon.hx(b)}"); meta.append(("scaleup", sc, b))
+            raw = int.from_bytes(b, "little", signed=t[0] == "I")
+            rep = round(raw * sc, 12)
+            lines.append(f"scaledown {canon.valstr(sc)} {canon.valstr(rep)}"); meta.append(("scaledown", sc, rep))
+        for v in (0, 1, -1, 0.29, 1e300, -0.0, float("inf"), float("nan"), 10 ** 400, True):
+            lines.append(f"scaledown {canon.valstr(sc)} {canon.valstr(v)}"); meta.append(("scaledown", sc, v))
+    # helper pairs
+    for _ in range(ctx.n(4000, 200000)):
+        itow = rng.randrange(0, 604800000) if rng.random() < 0.9 else rng.choice([0, 1, 17999, 18000, 604799999, 604800000, 2 ** 32 - 1])
+        lines.append(f"itow2utc {itow}"); meta.append(("itow2utc", None, itow))
+    for _ in range(ctx.n(4000, 200000)):
+        wno = rng.randrange(0, 4000)
+        ms = rng.randrange(0, 604800000)
+        us = (wno * 604800000 + ms) * 1000 - 18_000_000
+        if us < 0:
+            continue
+        lines.append(f"utc2itow {us}"); meta.append(("utc2itow", None, (wno, ms, us)))
+    for _ in range(ctx.n(1500, 30000)):
+        sc = rng.choice([1e-7, 1e-2, 1e-3, 0.1])
+        sp = rng.randrange(-2 ** 31, 2 ** 31)
+        hp = rng.randrange(-99, 100)
+        val = (sp + hp / 100) * sc
+        lines.append(f"val2sphp {int.from_bytes(struct.pack('>d', val), 'big')} {int.from_bytes(struct.pack('>d', sc), 'big')}")
+        meta.append(("val2sphp", sc, (sp, hp, val)))
+    for _ in range(ctx.n(2000, 40000)):
+        n = rng.choice([1, 1, 2, 4])
+        b = bytes(rng.getrandbits(8) for _ in range(n))
+        lo = rng.randrange(8 * n)
+        w = rng.randrange(1, 8 * n - lo + 1)
+        mask = ((1 << w) - 1) << lo
+        lines.append(f"getbits {canon.hx(b)} {mask}"); meta.append(("getbits", None, (b, lo, w)))
+    lines.append("getbits - 1"); meta.append(("getbits-empty", None, None))
+    for name in ["svid", "gnssId", "tow", "reserved1", "cno", "dataBytes", "a1UTC"]:
+        for idx in ([], [1], [6], [12], [99], [100], [3, 4], [1, 2, 3], [255, 1]):
+            s = name + "".join(f"_{i:02d}" for i in idx)
+            lines.append(f"att2idx {s.encode().hex()}"); meta.append(("att2idx", name, idx))
+            lines.append(f"att2name {s.encode().hex()}"); meta.append(("att2name", name, idx))
+    for s in ("CFG_NMEA_PROTVER", "_HPlon", "svid_ab", "a_1_b", "x_", "_"):
+        lines.append(f"att2idx {s.encode().hex()}"); meta.append(("att2idx-raw", s, None))
+        lines.append(f"att2name {s.encode().hex()}"); meta.append(("att2name-raw", s, None))
+    for _ in range(ctx.n(2000, 20000)):
+        b = bytes(rng.choice(b"\xb5\x62\x24\x47\x50\xd3\x00\x03\x04\xff") for _ in range(rng.randrange(2, 6)))
+        lines.append(f"protocol {canon.hx(b)}"); meta.append(("protocol", None, b))
+    py = do_corr(res, lines)
+    for (kind, t, v), a, l in zip(meta, py, lines):
+        res.hist[kind] += 1
+        if kind == "v2b":
+            if t != "CH" and a.startswith("ok ") and len(canon.unhx(a[3:])) != gen.tsize(t):
+                res.finding(f"class=wrong-width;type={t[0]}", f"val2bytes({v!r}, {t}) has {len(canon.unhx(a[3:]))} bytes", dict(op=l))
+            if a.startswith("ok "):
+                res.distinct((t, a))
+                back = canon.handle(f"b2v {t} {a[3:]}")
+                exp = canon.valstr(v)
+                if t[0] == "R":
+                    x = float(v) if not isinstance(v, float) else v
+                    if gen.tsize(t) == 4:
+                        x = struct.unpack("<f", struct.pack("<f", x))[0]
+                    exp = canon.f64hex(x)
+                if t[0] == "C" and isinstance(v, str):
+                    exp = canon.valstr(v.encode("utf-8")) if t != "CH" else canon.valstr(v)
+                if back != "ok " + exp:
+                    res.finding(f"class=not-inverse;type={t[0]}", f"bytes2val(val2bytes({v!r})) = {back}", dict(op=l))
+            elif t[0] in "EILU" or (t[0] == "R" and isinstance(v, float) and abs(v) < 1e38):
+                res.finding(f"class=in-range-refused;type={t[0]}", f"val2bytes({v!r}, {t}) → {a}", dict(op=l))
+        elif kind in ("v2b-out", "badtype"):
+            if a.startswith("ok ") and kind == "v2b-out" and not (t[0] == "C"):
+                res.finding(f"class=out-of-range-accepted;type={t[0]}", f"val2bytes({v!r}, {t}) accepted: {a}", dict(op=l))
+            if kind == "badtype" and a.startswith("ok ") and t[0] not in "ACEILRUX":
+                res.finding("class=bad-type-accepted", f"{l} → {a}", dict(op=l))
+        elif kind == "v2b-type":
+            okpy = {"A": (list,), "C": (bytes, str), "E": (int,), "I": (int,), "L": (int,), "R": (int, float), "U": (int,), "X": (bytes,)}[t[0]]
+            if not isinstance(v, okpy) and a.startswith("ok "):
+                res.finding(f"class=wrong-python-type-accepted;type={t[0]}", f"val2bytes({v!r}, {t}) accepted", dict(op=l))
+        elif kind == "nomval":
+            if t != "CH" and a.startswith("ok "):
+                enc = canon.handle(f"v2b {t} {a[3:]}")
+                if enc != "ok " + canon.hx(bytes(gen.tsize(t))):
+                    res.finding(f"class=nomval-not-zero;type={t[0]}", f"val2bytes(nomval({t})) = {enc}", dict(op=l))
+        elif kind == "cksum":
+            if a != fletcher_ref(v).hex():
+                res.finding("class=checksum-not-fletcher", f"calc_checksum({v.hex()[:40]}) = {a}", dict(op=l[:200]))
+        elif kind == "isvalid":
+            exp = "true" if v[-2:] == fletcher_ref(v[2:-2]) else "false"
+            if a != exp:
+                res.finding("class=isvalid-disagrees", f"isvalid_checksum → {a}, Fletcher says {exp}", dict(op=l[:200]))
+        elif kind == "utc2itow":
+            wno, ms, us = v
+            # consistency: absolute time is preserved and itow2utc gives the same time of day
+            if not a.startswith("ok "):
+                res.finding("class=utc2itow-raises", a, dict(op=l))
+                continue
+            w, i = map(int, a.split()[1:])
+            if w * 604800000 + i != wno * 604800000 + ms:
+                res.finding("class=utc2itow-off", f"utc2itow gives ({w},{i}) for week {wno} ms {ms}", dict(op=l))
+            else:
+                tod = canon.handle(f"itow2utc {i}")
+                if tod != f"ok {us % 86400000000}":
+                    res.finding("class=itow2utc-inconsistent", f"itow2utc({i}) = {tod}, expected time of day {us % 86400000000} µs", dict(op=l))
+        elif kind == "itow2utc":
+            exp = ((v * 1000) - 18_000_000) % 86_400_000_000
+            if a != f"ok {exp}":
+                res.finding("class=itow2utc-off", f"itow2utc({v}) = {a}, expected {exp} µs after midnight", dict(op=l))
+        elif kind == "val2sphp":
+            sp, hp, val = v
+            if a.startswith("ok "):
+                s_, h_ = map(int, a.split()[1:])
+                # reconstruction within one hp unit
+                if abs((s_ * 100 + h_) - (sp * 100 + hp)) > 1:
+                    res.finding("class=val2sphp-off", f"val2sphp gives ({s_},{h_}) for ({sp},{hp})", dict(op=l))
+                elif not -100 <= h_ <= 100:
+                    res.finding("class=val2sphp-hp-range", f"hp={h_}", dict(op=l))
+        elif kind == "getbits":
+            b, lo, w = v
+            exp = (int.from_bytes(b, "big") >> lo) & ((1 << w) - 1)
+            if a != f"ok {exp}":
+                res.finding("class=get_bits-formula", f"get_bits → {a}, formula gives {exp}", dict(op=l))
+            if len(b) == 1:
+                # agreement with the parser's flag slicing for one-byte bitfields
+                pass
+        elif kind == "att2idx":
+            idx = v
+            exp = "0" if not idx else (str(idx[0]) if len(idx) == 1 else "(" + ",".join(map(str, idx)) + ")")
+            if a != exp:
+                res.finding("class=att2idx", f"{l} → {a}, expected {exp}", dict(op=l))
+        elif kind == "att2name":
+            if a != canon.hx(t.encode()):
+                res.finding("class=att2name", f"{l} → {a}", dict(op=l))
+        elif kind == "protocol":
+            b = v
+            exp = 2 if b[:2] == b"\xb5\x62" else 1 if (b[0] == 0x24 and b[1] in ctx.facts["nmeaHdr2"]) else 4 if (b[0] == 0xd3 and b[1] & 0xfc == 0) else 0
+            if a != f"ok {exp}":
+                res.finding("class=protocol", f"protocol({b.hex()}) = {a}, expected {exp}", dict(op=l))
+    samples = [lines[5], lines[len(lines) // 2][:100], lines[-1]]
+    return res.finish("distinct (type, encoding) pairs from val2bytes; all types in use × exhaustive 1-byte (2-byte in thorough) ranges, boundaries and random wider values; all byte strings ≤ 2 (3) for checksums; scale/unscale for every scale factor in the tables; helper pairs", samples)
+
+
+def _walk_scaled(d):
+    for k, v in d.items():
+        if isinstance(v, list):
+            yield v
+        elif isinstance(v, tuple) and v[0] not in gen.BITTYPES:
+            yield from _walk_scaled(v[1])
+
+
+CHECKS["C18"] = check_C18
